@@ -339,6 +339,7 @@ class Contract:
         self.native_setup = native_setup
         self.max_paths = max_paths
         self.bounded_note = bounded_note
+        self.result_name = result_name  # name of the return value in clauses when a parameter is itself called `result`
         self.call_ensures = call_ensures  # clauses assumed at call sites instead of `ensures` (an abstraction of them; listed as assumed)
         self.ghost_init = dict(ghost_init or {})  # ghost name -> clause over the arguments, evaluated at entry
         self.replayable = replayable  # False: the function cannot be driven natively in isolation (threads, live engine); refutations are reported without input
